@@ -38,7 +38,7 @@ func readJSON(path string, v interface{}) {
 type popFlags struct {
 	seed                                  int64
 	smallMax, smallSlice, smallSlices     int
-	nrand, ndp, nctx, nexpr, nplanted     int
+	nrand, ndp, nctx, nexpr, nplanted, nfeat int
 	corpus                                string
 }
 
@@ -52,6 +52,7 @@ func (p *popFlags) register(fs *flag.FlagSet) {
 	fs.IntVar(&p.nctx, "nctx", 0, "same-core/different-context grammars")
 	fs.IntVar(&p.nexpr, "nexpr", 0, "operator grammars")
 	fs.IntVar(&p.nplanted, "nplanted", 0, "random grammars with planted unusable symbols")
+	fs.IntVar(&p.nfeat, "nfeat", 0, "surface-feature grammars (names, literals, rule lengths)")
 	fs.StringVar(&p.corpus, "corpus", "", "corpus directory")
 }
 
@@ -79,6 +80,9 @@ func (p *popFlags) cases() []*Case {
 	}
 	for i := 0; i < p.nexpr; i++ {
 		res = append(res, GenExpr(r, fmt.Sprintf("expr-%d-%d", p.seed, i)))
+	}
+	for i := 0; i < p.nfeat; i++ {
+		res = append(res, GenFeature(r, fmt.Sprintf("feat-%d-%d", p.seed, i)))
 	}
 	for i := 0; i < p.nplanted; i++ {
 		k := randKnobs(r)
